@@ -1,0 +1,14 @@
+//go:build verif
+
+package multisigsc
+
+import "github.com/0chain/common/core/util"
+
+// VerifEntityPrototypes returns the stored types of this contract (verification harness, C08).
+func VerifEntityPrototypes() []func() util.MPTSerializable {
+	return []func() util.MPTSerializable{
+		func() util.MPTSerializable { return &Wallet{} },
+		func() util.MPTSerializable { return &proposal{} },
+		func() util.MPTSerializable { return &expirationQueue{} },
+	}
+}
